@@ -27,7 +27,8 @@ RULE = (
     "renamed to one of {self, logger, action_type, include_args, result, _serializers}; plain functions "
     "and methods; body returns a tuple of its locals (or raises); calls = all splits of 0..n+1 argument "
     "values into positional and keyword (by every parameter name) + an unknown keyword; options = "
-    "{bare, action_type=, include_args= each subset incl. an invalid name, include_result=False}; "
+    "{bare, action_type=, include_args= each subset (incl. self) and an invalid name, include_result=False}; plus one decorator "
+    "factory applied to several functions and a function decorated before / called after the default logger is swapped; "
     "non-trivial = signature with >= 1 parameter"
 )
 ASSUMPTIONS = [
